@@ -200,6 +200,32 @@ theorem posStat : ∀ (st : Stat) (env : Env) (s : RefSt), EnvLt env s.pos → O
     have a : PosOk s ((s.use env f).skip 1) := PosOk.skip ⟨ho.use he f, by simp [RefSt.use]⟩ 1
     have b := posExprs args env _ (he.mono a.mono) a.out
     exact ⟨(a.trans b).skip 1, he.mono ((a.trans b).skip 1).mono⟩
+  | .loclAttr n val, env, s, he, ho => by
+    simp only [refStat]
+    have a : PosOk s (s.skip 6) := PosOk.start ho 6
+    have b := posExpr val env _ (he.mono a.mono) a.out
+    refine ⟨a.trans b, ?_⟩
+    intro e hm
+    rcases List.mem_cons.mp hm with rfl | hm
+    · show s.pos + 2 < _; have := b.mono; simp only [RefSt.skip_pos] at this; omega
+    · exact he.mono (a.trans b).mono e hm
+  | .method obj k colon ps body, env, s, he, ho => by
+    simp only [refStat]
+    have a0 : PosOk s (s.skip 1) := PosOk.start ho 1
+    have a1 : PosOk s ((s.skip 1).use env obj) :=
+      ⟨a0.out.use (he.mono a0.mono) obj, by simp [RefSt.use, RefSt.skip]; omega⟩
+    have a := a1.skip (2 * k + 2 + ps.length)
+    have heS : EnvLt (selfEnv colon (s.pos + 4 * k) env) (((s.skip 1).use env obj).skip (2 * k + 2 + ps.length)).pos := by
+      intro e hm
+      cases colon
+      · exact he.mono a.mono e (by simpa [selfEnv] using hm)
+      · simp only [selfEnv, if_true] at hm
+        rcases List.mem_cons.mp hm with rfl | hm
+        · show s.pos + 4 * k < _; simp; omega
+        · exact he.mono a.mono e hm
+    have b := posBlock body (bindNames (selfEnv colon (s.pos + 4 * k) env) (s.pos + 6 + 4 * k) ps) _
+      (EnvLt.bindNames ps _ _ _ heS (by simp; omega)) a.out
+    exact ⟨(a.trans b.1).skip 1, he.mono ((a.trans b.1).skip 1).mono⟩
 theorem posBlock : ∀ (b : List Stat) (env : Env) (s : RefSt), EnvLt env s.pos → OutOk s.out s.pos →
     PosOk s (refBlock env s b).1 ∧ EnvLt (refBlock env s b).2 (refBlock env s b).1.pos
   | [], env, s, he, ho => by simp only [refBlock]; exact ⟨⟨ho, Nat.le_refl _⟩, he⟩
